@@ -9,10 +9,11 @@ the backtracking matcher, lazy parameter group included), that parsing it again 
 string and yields the same type, code, sub-code, parameters, line number and the same normalised
 string.
 
-**Partial**: the parameters must be *plain* — non-empty when present, no backslash escape, none of
-`; * CR LF`, not starting or ending with a blank — which is what the parser itself produces for any
-source line without backslashes (that closure is **not** proved here; it is exercised by the `parser`
-correspondence suite and the oracle).  Escaped parameters (`\\`, `\;`) are outside the theorem. -/
+The two `_partial` theorems take the *plain* shape of the command as a hypothesis (`NormCmd.WF`:
+parameters non-empty when present, no backslash escape, none of `; * CR LF`, not starting or ending
+with a blank); `Properties/C18Closure.lean` proves that the parser produces exactly this shape for
+every source without a backslash and states the unconditional corollaries.  Escaped parameters
+(`\\`, `\;`) are outside the theorems. -/
 namespace ERP.C18
 open ERP ERP.Rx ERP.NormCmd
 
